@@ -72,9 +72,12 @@ Theorem rtrim_idem : forall s chars, fql_rtrim (fql_rtrim s chars) chars = fql_r
 Proof. exact fql_rtrim_idem. Qed.
 Print Assumptions rtrim_idem.
 
-(* ---- dates.  amount_ok: the int64 product amount * unit does not overflow;
-   diff_guard: |amount| <= 2^32 and |amount| * unit <= 2^63 - 1 ns (no saturation
-   of Time.Sub) *)
+(* ---- dates.  amount_ok: the int64 product amount * unit of DATE_ADD does not
+   overflow; diff_guard: amount_ok and |amount| <= 2^32.  DATE_DIFF is computed
+   from Unix() seconds and Nanosecond() parts in integer arithmetic
+   (proposed_fixes/C17-date-diff-exact), so there is no bound on amount * unit:
+   the whole range of the property, amounts up to 10^6 of every unit, is
+   covered (date_diff_amount_in_range). *)
 Theorem date_add_sub : forall t n u, inst_norm t -> amount_ok n u ->
   date_sub (date_add t n u) n u = t.
 Proof. exact DateProofs.date_add_sub. Qed.
@@ -85,16 +88,23 @@ Theorem date_diff_amount : forall t n u, inst_norm t -> diff_guard n u -> 0 <= n
 Proof. exact DateProofs.date_diff_amount. Qed.
 Print Assumptions date_diff_amount.
 
+Theorem date_diff_amount_in_range : forall t n u, inst_norm t -> 0 <= n <= 1000000 ->
+  date_diff t (date_add t n u) u = n.
+Proof. exact DateProofs.date_diff_amount_in_range. Qed.
+Print Assumptions date_diff_amount_in_range.
+
+(* DATE_DIFF of any two instants is the whole number of units between them *)
+Theorem date_diff_exact : forall a b u, inst_norm a -> inst_norm b ->
+  Z.abs (fst a - fst b) <= 2 ^ 53 ->
+  date_diff a b u = Z.abs (inst_ns a - inst_ns b) / unit_ns u.
+Proof. exact DateProofs.date_diff_exact. Qed.
+Print Assumptions date_diff_exact.
+
 (* the sign convention of the code: the later minus the earlier instant *)
 Theorem date_diff_is_absolute : forall t n u, inst_norm t -> diff_guard n u ->
   date_diff t (date_add t n u) u = Z.abs n.
 Proof. exact date_diff_abs_amount. Qed.
 Print Assumptions date_diff_is_absolute.
-
-Theorem date_diff_refuted : exists t n u,
-  inst_norm t /\ 0 <= n <= 1000000 /\ date_diff t (date_add t n u) u <> n.
-Proof. exact date_diff_refuted_saturation. Qed.
-Print Assumptions date_diff_refuted.
 
 Theorem date_diff_negative_refuted : exists t n u,
   inst_norm t /\ diff_guard n u /\ date_diff t (date_add t n u) u <> n.
@@ -121,10 +131,10 @@ Proof. reflexivity. Qed.
 
 Example date_guards_satisfiable :
   inst_norm (253402300799, 999999999) /\ amount_ok (-1000000) UWeek /\ amount_ok 1000000 UHour
-  /\ diff_guard 1000000 UHour /\ diff_guard 106751 UDay /\ diff_guard 15250 UWeek
+  /\ diff_guard 1000000 UHour /\ diff_guard 1000000 UDay /\ diff_guard (-1000000) UWeek
   /\ rfc3339_guard (253402300799, 999999999) 0 = true
   /\ rfc3339_guard (-62135596800, 1) 345 = true.
 Proof.
-  unfold inst_norm, amount_ok, diff_guard. cbn [snd unit_mult unit_ns].
+  unfold diff_guard, inst_norm, amount_ok. cbn [snd unit_mult unit_ns].
   repeat split; try reflexivity; try (intro; discriminate).
 Qed.
